@@ -1,4 +1,5 @@
 import PasslibVerif.Py.Basic
+import PasslibVerif.Gen.Apache
 /-
 Model of passlib.apache._CommonFile / HtpasswdFile / HtdigestFile at the byte level:
 `_load_lines`, `_set_record`, `_iter_lines`, delete, delete_realm, check_password.
@@ -121,10 +122,12 @@ def iterLines (s : St) : List Bytes :=
 def toString (s : St) : Bytes := (iterLines s).flatten
 
 /-! ### field validation (`_encode_field`) -/
-def invalidFieldChars : List Nat := [58, 10, 13, 9, 0]
+/-- `_INVALID_FIELD_CHARS` and the length bound of `_encode_field`, as read from passlib/apache.py on this run (unit Apache) -/
+def invalidFieldChars : List Nat := Gen.Apache.invalidFieldChars
+def maxFieldLen : Nat := Gen.Apache.maxFieldLen
 
 def encodeField (v : Bytes) : Res Bytes :=
-  if v.length > 255 then .error .valueError
+  if v.length > maxFieldLen then .error .valueError
   else if v.any (invalidFieldChars.contains ·) then .error .valueError
   else .ok v
 
